@@ -49,7 +49,7 @@ Qed.
 
 (* leader read of a 3-replica region, everything healthy, a generous budget *)
 Definition c0 : cfg := mkCfg RTLeader false true false false false false 100000%N true
-  [fresh_rep Reachable false false false; fresh_rep Reachable false false false; fresh_rep Reachable false false false] false TpTiKV TNever TNever true false.
+  [fresh_rep Reachable false false false; fresh_rep Reachable false false false; fresh_rep Reachable false false false] false TpTiKV TNever TNever true 0 None false.
 
 Definition N0 := ONotLeaderHint 0.
 Definition N1 := ONotLeaderHint 1.
